@@ -169,10 +169,13 @@ fn main() {
                     Some((a, b)) => (a, b.split('|').map(|s| s.to_string()).collect::<Vec<_>>()),
                     None => (l, vec![]),
                 };
-                let io = world::LineIo {
+                let mut io = world::LineIo {
                     replies,
                     ..Default::default()
                 };
+                if let Some(b) = std::env::var("VERIF_SCRIPT_BUDGET").ok().and_then(|s| s.parse().ok()) {
+                    io.max_instr = b;
+                }
                 let o = w.line(line, &io);
                 for e in &w.events[o.ev_start..o.ev_end] {
                     println!("{:?}", e);
